@@ -506,8 +506,9 @@ def run(check, tier, seed, replay=None):
         wall_s=round(time.time() - t0, 2),
         violations=len(new_viol) + (1 if status == 1 and not new_viol else 0),
     )
-    with open(os.path.join(EVID, f"{pid}.json"), "w") as f:
-        json.dump(ev, f, indent=1, sort_keys=True)
+    if not replay:   # a replay re-runs one recorded case; it is not a coverage run
+        with open(os.path.join(EVID, f"{pid}.json"), "w") as f:
+            json.dump(ev, f, indent=1, sort_keys=True)
     print(f"{pid} {tier} seed={seed}: theorems {b['discharged']}/{b['obligations']}, cases {len(cases)} "
           f"(nontrivial {nontrivial}), model=impl on {validated}, disagreements {len(disagreements)}, "
           f"oracle violations {len(violations)} (known {sum(len(v) for v in known_hits.values())}), {ev['wall_s']}s")
